@@ -17,14 +17,14 @@
     (a parameter; C06 is about it). *)
 From SpyneV Require Export C01.XmlX Base.Digits.
 
-Definition ns_soap11 : text := [104; 116; 116; 112; 58; 47; 47; 115; 99; 104; 101; 109; 97; 115; 46; 120; 109; 108; 115; 111; 97; 112; 46; 111; 114; 103; 47; 115; 111; 97; 112; 47; 101; 110; 118; 101; 108; 111; 112; 101; 47].  (* http://schemas.xmlsoap.org/soap/envelope/ *)
-Definition ns_soap12 : text := [104; 116; 116; 112; 58; 47; 47; 119; 119; 119; 46; 119; 51; 46; 111; 114; 103; 47; 50; 48; 48; 51; 47; 48; 53; 47; 115; 111; 97; 112; 45; 101; 110; 118; 101; 108; 111; 112; 101].  (* http://www.w3.org/2003/05/soap-envelope *)
+Definition ns_soap11 : text := xw_ns_soap11_env.  (* spyne.const.xml.NS_SOAP11_ENV, generated *)
+Definition ns_soap12 : text := xw_ns_soap12_env.  (* spyne.const.xml.NS_SOAP12_ENV, generated *)
 Definition t_Envelope : text := [69; 110; 118; 101; 108; 111; 112; 101].  (* Envelope *)
 Definition t_Header : text := [72; 101; 97; 100; 101; 114].  (* Header *)
 Definition t_Body : text := [66; 111; 100; 121].  (* Body *)
 Definition t_Fault : text := [70; 97; 117; 108; 116].  (* Fault *)
-Definition t_Response : text := [82; 101; 115; 112; 111; 110; 115; 101].  (* Response *)
-Definition t_Result : text := [82; 101; 115; 117; 108; 116].  (* Result *)
+Definition t_Response : text := xw_response_suffix.  (* spyne.const.RESPONSE_SUFFIX, generated *)
+Definition t_Result : text := xw_result_suffix.  (* spyne.const.RESULT_SUFFIX, generated *)
 
 Inductive proto := PXml | PSoap11 | PSoap12.
 Inductive bstyle := SWrapped | SBare | SOutBare.          (* _body_style *)
@@ -215,7 +215,11 @@ Section Pipeline.
             | _ => Crash TypeError                                                   (* indexing / iterating a non-sequence *)
             end
         end
-    | _ => Ok ret                                                                    (* ctx.out_object[0] *)
+    | _ =>                                                        (* ctx.out_object = [ret]; the item the serializer takes is generated *)
+        match (match P with PXml => xw_xml_bare_index | _ => xw_soap_bare_index end) with
+        | Some j => match nth_error [ret] (Z.to_nat j) with Some v => Ok v | None => Crash IndexError end
+        | None => Crash TypeError                                 (* the whole sequence handed to to_parent *)
+        end
     end.
 
   Fixpoint enc_headers (classes : list cid) (vals : list val) : out (list xnode) :=
